@@ -57,7 +57,14 @@ def inputs_kept(L):
     return [np_.ref, fl.ref, rec.ref]
 
 
+def node_set_kept(L):
+    try: return [L.var('cell_node_set').ref]
+    except Exception: return []
+
+
 KEEP = [('vec.len', inputs_kept), ('vec.data.int', inputs_kept), ('vec.data.real', inputs_kept)]
+# the loops after the face loop read the set of used point ids without changing it
+KEEP_SET = KEEP + [('sset.member', node_set_kept), ('set.size', node_set_kept)]
 
 
 def build(reg):
@@ -66,7 +73,7 @@ def build(reg):
     reg.add(Contract(fn, PROP, pre=cell_body_pre, post=cell_body_post, slice_loop=0, safety=SAF,
                      name=fn + '::<cell record>'))
     reg.add_loop(LoopContract(fn, 1, face_loop_inv, modifies=['*'], decreases=face_loop_dec, keep_at=KEEP))
-    reg.add_loop(LoopContract(fn, 2, lambda L: [], modifies=['*'], keep_at=KEEP))
+    reg.add_loop(LoopContract(fn, 2, lambda L: [], modifies=['*'], keep_at=KEEP_SET))
     reg.add_loop(LoopContract(fn, 3, lambda L: [], modifies=['*'], keep_at=KEEP))
     reg.add_loop(LoopContract(fn, 4, lambda L: [], modifies=['*'], keep_at=KEEP))
     build_rest(reg)
